@@ -444,9 +444,17 @@ def rule_map_err(text):
 
 
 def rule_option_map(text):
-    """X.map(|p| B) -> match X { Some(p) => Some(B), None => None }   (Option only in this code base)"""
+    """X.map(|p| B) -> match X { Some(p) => Some(B), None => None }   (Option only in this code base);
+    X.map(F) with F a path (a fn or a tuple-struct constructor) -> match X { Some(__m) => Some(F(__m)), None => None }"""
     def finder(c):
         for k in range(len(c)):
+            if c.seq(k, ".", "map", "(") and c.t(k + 3) != "|" and c.kind(k + 3) == "id":
+                cl = c.close(k + 2)
+                f = c.slice(k + 3, cl).strip()
+                if re.match(r"^[A-Za-z_][A-Za-z0-9_]*(\s*::\s*[A-Za-z_][A-Za-z0-9_]*)*$", f):
+                    rs = _method_call_receiver_start(c, k)
+                    recv = c.text[c.pos(rs):c.pos(k)].strip()
+                    return (c.pos(rs), c.end(cl), "(match %s { Some(__m) => Some(%s(__m)), None => None })" % (recv, f))
             if c.seq(k, ".", "map", "(") and c.t(k + 3) == "|":
                 cl = c.close(k + 2)
                 bar2 = k + 4
